@@ -90,11 +90,11 @@ struct exception_catch_functor : public adapts<T_functor>
   }
 
   template<typename... T_arg>
-  decltype(auto) operator()(T_arg... a)
+  decltype(auto) operator()(T_arg&&... a)
   {
     try
     {
-      return std::invoke(this->functor_, a...);
+      return std::invoke(this->functor_, std::forward<T_arg>(a)...);
     }
     catch (...)
     {
